@@ -43,6 +43,8 @@ package adapter
 //@   requires[inv]  a != nil && a.logger != nil && a.bankKeeper != nil
 //@   modifies bank
 //@   ensures[C18] len(passthroughPayload) > limitOf(a) ==> err != nil && bank == old(bank)
+//@   ensures[C18] len(passthroughPayload) <= limitOf(a) && bal(old(bank), core.ModuleAddress, denom) == 0 ==> err == nil
+//@   ensures[C03,C07,C18] err != nil ==> bank == old(bank)
 
 // ---------------------------------------------------------------------------------------------
 // The adapter as the payload adapter of the middleware (implements types.PayloadAdapter)
@@ -65,5 +67,6 @@ package adapter
 //@ func (a *Adapter) clearOrbiterBalance(ctx, denom) (err)
 //@   requires[inv] a != nil && a.bankKeeper != nil
 //@   modifies bank
+//@   ensures[C18,C11] bal(old(bank), core.ModuleAddress, denom) == 0 ==> err == nil
 //@   ensures[C01,C02,C11] err == nil ==> bank == moveIf(bal(old(bank), core.ModuleAddress, denom) > 0, old(bank), core.ModuleAddress, moduleAddr(core.DustCollectorName), denom, bal(old(bank), core.ModuleAddress, denom))
 //@   ensures[C03,C07,C18] err != nil ==> bank == old(bank)
